@@ -1,6 +1,7 @@
 package main
 
 import (
+	"encoding/json"
 	"fmt"
 	"sort"
 	"strings"
@@ -291,10 +292,91 @@ func natRes(v any) string {
 	return dump(v)
 }
 
-// runNat: getpath / setpath / delpaths natives on JSON values versus the value-level model
+// natCase: one native call, either executed and emitted as a line for the model, or (replay mode) turned
+// into a jq-level case for the defining-reduction oracle
+type natCase struct {
+	kind string // getpath, setpath, delpaths
+	v    any
+	p    gpath
+	ps   []gpath
+	n    any
+}
+
+func (nc *natCase) oracleCase() *Case {
+	js := func(x any) string { b, _ := json.Marshal(x); return string(b) }
+	switch nc.kind {
+	case "delpaths":
+		var l []any
+		for _, p := range nc.ps {
+			l = append(l, p.goVal())
+		}
+		if l == nil {
+			l = []any{}
+		}
+		return &Case{Kind: "eq", Q: []string{"delpaths(" + js(l) + ")", "_dref(" + js(l) + ")"}, AddDefs: true, Input: js(nc.v), Op: "delpaths"}
+	case "setpath":
+		for _, c := range nc.p {
+			if c.kind != 'k' && c.kind != 'i' {
+				return nil
+			}
+		}
+		p, n := js(nc.p.goVal()), js(nc.n)
+		return &Case{Kind: "eq", Q: []string{"setpath(" + p + "; " + n + ") | getpath(" + p + ")", "setpath(" + p + "; " + n + ") | " + n}, Input: js(nc.v), Op: "setpath"}
+	}
+	return nil
+}
+
+// the systematic delpaths block: slices reaching the end, negative indices and bounds, out-of-range
+// indices as single-component paths (and slice+index), all ordered pairs and a seed-dependent part of the
+// ordered triples, on two small arrays
+func natTailCases(seed uint64, all bool) []*natCase {
+	sl := func(s, e int, hs, he bool) gpath { return gpath{comp{kind: 's', hasS: hs, s: s, hasE: he, e: e}} }
+	ix := func(i int) gpath { return gpath{comp{kind: 'i', idx: i}} }
+	alts := []gpath{sl(2, 0, true, false), sl(1, 4, true, true), sl(-2, 0, true, false), sl(0, 0, true, false), sl(3, 0, true, false),
+		sl(4, 0, true, false), sl(5, 0, true, false), sl(-1, 0, true, false), ix(-1), ix(-2), ix(-4), ix(-5),
+		sl(0, -1, false, true), sl(-3, -1, true, true), sl(1, -1, true, true), ix(4), ix(7), ix(0), ix(2), sl(1, 2, true, true),
+		append(sl(1, 0, true, false), comp{kind: 'i', idx: -1}), append(sl(0, -1, false, true), comp{kind: 'i', idx: 0})}
+	inputs := []func() any{
+		func() any { return []any{0, 1, 2, 3} },
+		func() any { return []any{[]any{0, 1}, map[string]any{"a": 2}, 4, []any{5}} },
+	}
+	var cs []*natCase
+	n := len(alts)
+	for _, in := range inputs {
+		for i := 0; i < n; i++ {
+			for j := 0; j < n; j++ {
+				cs = append(cs, &natCase{kind: "delpaths", v: in(), ps: []gpath{alts[i], alts[j]}})
+				for k := 0; k < n; k++ {
+					if all || (uint64(i*n*n+j*n+k)+seed)%8 == 0 {
+						cs = append(cs, &natCase{kind: "delpaths", v: in(), ps: []gpath{alts[i], alts[j], alts[k]}})
+					}
+				}
+			}
+		}
+	}
+	return cs
+}
+
+// runNat: getpath / setpath / delpaths natives on JSON values versus the value-level model.
+// Arguments: "replay:i,j,..." prints, instead of running anything, the jq-level oracle cases (JSON) of the
+// lines with these indices; "search" runs all triples of the systematic block.
 func runNat(c *Ctx) {
 	g := newGen(c.Rng)
 	r := c.Rng
+	replay := map[int]bool{}
+	isReplay, all := false, c.Tier != "quick"
+	for _, a := range c.Args {
+		if l, ok := strings.CutPrefix(a, "replay:"); ok {
+			isReplay = true
+			for _, x := range strings.Split(l, ",") {
+				var i int
+				if _, err := fmt.Sscan(x, &i); err == nil {
+					replay[i] = true
+				}
+			}
+		}
+		all = all || a == "search"
+	}
 	guard := func(what string, f func() any) (res any) {
 		defer func() {
 			if p := recover(); p != nil {
@@ -304,35 +386,55 @@ func runNat(c *Ctx) {
 		}()
 		return f()
 	}
+	cases := natTailCases(c.Seed, all)
 	for i := 0; i < c.N; i++ {
 		v := g.value(1 + r.Intn(3))
-		pristine := clone(v)
-		vs := dump(v)
 		switch r.Intn(3) {
 		case 0:
-			p := g.randPath(v, 4)
-			res := guard("getpath", func() any { return gojq.VerifGetpath(v, p.goVal()) })
-			c.Emit("(getpath %s %s %s)", vs, p.sexp(), natRes(res))
-			c.Count("nat:getpath")
+			cases = append(cases, &natCase{kind: "getpath", v: v, p: g.randPath(v, 4)})
 		case 1:
 			p := g.randPath(v, 4)
-			n := g.value(r.Intn(2))
-			res := guard("setpath", func() any { return gojq.VerifSetpathPlain(v, p.goVal(), n) })
-			c.Emit("(setpath %s %s %s %s)", vs, p.sexp(), dump(n), natRes(res))
-			c.Count("nat:setpath")
+			cases = append(cases, &natCase{kind: "setpath", v: v, p: p, n: g.value(r.Intn(2))})
 		default:
 			np := 1 + r.Intn(4)
+			nc := &natCase{kind: "delpaths", v: v}
+			for j := 0; j < np; j++ {
+				nc.ps = append(nc.ps, g.randPath(v, 3))
+			}
+			cases = append(cases, nc)
+		}
+	}
+	for i, nc := range cases {
+		if isReplay {
+			if replay[i] {
+				if oc := nc.oracleCase(); oc != nil {
+					b, _ := json.Marshal(oc)
+					c.Emit("%s", b)
+				}
+			}
+			continue
+		}
+		v := nc.v
+		pristine := clone(v)
+		vs := dump(v)
+		switch nc.kind {
+		case "getpath":
+			res := guard("getpath", func() any { return gojq.VerifGetpath(v, nc.p.goVal()) })
+			c.Emit("(getpath %s %s %s)", vs, nc.p.sexp(), natRes(res))
+		case "setpath":
+			res := guard("setpath", func() any { return gojq.VerifSetpathPlain(v, nc.p.goVal(), nc.n) })
+			c.Emit("(setpath %s %s %s %s)", vs, nc.p.sexp(), dump(nc.n), natRes(res))
+		default:
 			var ps []any
 			var sx []string
-			for j := 0; j < np; j++ {
-				p := g.randPath(v, 3)
+			for _, p := range nc.ps {
 				ps = append(ps, p.goVal())
 				sx = append(sx, p.sexp())
 			}
 			res := guard("delpaths", func() any { return gojq.VerifDelpathsPlain(v, ps) })
 			c.Emit("(delpaths %s (%s) %s)", vs, strings.Join(sx, " "), natRes(res))
-			c.Count("nat:delpaths")
 		}
+		c.Count("nat:" + nc.kind)
 		if !equal(v, pristine) {
 			c.Violation("native-input-mutated: a path native modified its input %s", vs)
 		}
